@@ -44,6 +44,8 @@ type script struct {
 	Errs        []offer `json:"errs"`
 	ErrcLag     int64   `json:"errc_lag"`     // -1: errc is never closed
 	ResCloseLag int64   `json:"resclose_lag"` // -1: Results() is never closed
+	SlowID      int64   `json:"slow_id"`      // the record of this result id is accepted by the output in two pieces ...
+	SlowGap     int64   `json:"slow_gap"`     // ... this far apart (a slow standard output); 0: none
 }
 
 type row struct {
@@ -60,6 +62,7 @@ type row struct {
 	Returned    bool     `json:"returned"`
 	ReturnAt    int64    `json:"return_at"`
 	Output      string   `json:"output"`       // raw logger output
+	OutAtReturn string   `json:"out_at_return"` // the bytes the output had accepted at the moment the call returned
 	Logged      []int64  `json:"logged"`       // ids parsed from complete lines
 	LoggedAt    []int64  `json:"logged_at"`    // write timestamps
 	BadOutput   string   `json:"bad_output,omitempty"`
@@ -80,16 +83,29 @@ func (e *scriptedErr) Error() string { return "scripted error " + strconv.Format
 
 // tsWriter records every Write with its time.
 type tsWriter struct {
-	mu  sync.Mutex
-	t0  time.Time
-	buf bytes.Buffer
-	at  []int64
+	mu      sync.Mutex
+	t0      time.Time
+	buf     bytes.Buffer
+	at      []int64
+	slow    []byte // a Write of exactly these bytes is accepted in two pieces, slowGap apart
+	slowGap time.Duration
 }
 
 func (w *tsWriter) Write(p []byte) (int, error) {
 	w.mu.Lock()
-	defer w.mu.Unlock()
 	w.at = append(w.at, int64(time.Since(w.t0)))
+	if len(w.slow) > 0 && bytes.Equal(p, w.slow) && len(p) > 2 {
+		// like a nearly full pipe: the first bytes go out, the writer blocks, the rest follows
+		w.buf.Write(p[:2])
+		w.mu.Unlock()
+		time.Sleep(w.slowGap)
+		w.mu.Lock()
+		defer w.mu.Unlock()
+		w.at = append(w.at, int64(time.Since(w.t0)))
+		n, err := w.buf.Write(p[2:])
+		return n + 2, err
+	}
+	defer w.mu.Unlock()
 	return w.buf.Write(p)
 }
 
@@ -381,10 +397,18 @@ func runCase(id int, seed int64, k script, cls string) row {
 			cancelParent()
 		}()
 	}
+	if k.SlowGap > 0 {
+		w.slow, w.slowGap = []byte((&fakeResult{k.SlowID}).String()+"\n"), time.Duration(k.SlowGap)
+	}
 	ret := make(chan int64, 1)
+	var snap string
 	go func() {
 		_ = command.VerifC16StartScanEngine(parent, eng, lg, time.Duration(k.Delay))
-		ret <- int64(time.Since(t0))
+		at := int64(time.Since(t0))
+		w.mu.Lock()
+		snap = w.buf.String()
+		w.mu.Unlock()
+		ret <- at
 	}()
 	// watchdog: generous when a return is expected, short after the last scripted moment otherwise
 	last := k.Done + maxi(k.Delay, 0)
@@ -394,13 +418,14 @@ func runCase(id int, seed int64, k script, cls string) row {
 	for _, of := range k.Results {
 		last = maxi(last, of.At)
 	}
+	last += k.SlowGap
 	wait := time.Duration(last) + 6*time.Second
 	if o.ExpectHang {
 		wait = time.Duration(last) + 400*time.Millisecond
 	}
 	select {
 	case t := <-ret:
-		o.Returned, o.ReturnAt = true, t
+		o.Returned, o.ReturnAt, o.OutAtReturn = true, t, snap
 	case <-time.After(wait - time.Since(t0)):
 	}
 	if !o.Returned {
@@ -487,7 +512,8 @@ func main() {
 	}
 	w := hlib.NewOut(*out)
 	defer w.Close()
-	rows := make([]row, *n)
+	const nslow = 3
+	rows := make([]row, *n+nslow)
 	sem := make(chan struct{}, *par)
 	var wg sync.WaitGroup
 	for i := 0; i < *n; i++ {
@@ -503,6 +529,27 @@ func main() {
 			defer func() { <-sem }()
 			rows[i] = runCase(i, *seed, k, cls)
 		}(i, k, cls)
+	}
+	// a slow standard output: the record of a reply inside the exit delay is accepted in two pieces that span the
+	// end of the delay
+	for j := 0; j < nslow; j++ {
+		i := *n + j
+		if *one >= 0 && i != *one {
+			continue
+		}
+		r := hlib.NewRand(*seed*1000033 + int64(i))
+		d := int64(120+r.Intn(120)) * ms
+		done := int64(15+r.Intn(30)) * ms
+		k := script{Delay: d, Done: done, Parent: -1, ErrcLag: []int64{0, 5 * ms}[r.Intn(2)],
+			ResCloseLag: []int64{-1, 10 * ms}[r.Intn(2)], SlowID: 2, SlowGap: int64(250+r.Intn(150)) * ms,
+			Results: []offer{{At: 5 * ms, ID: 1}, {At: done + d - int64(50+r.Intn(30))*ms, ID: 2}}}
+		wg.Add(1)
+		sem <- struct{}{}
+		go func(i int, k script) {
+			defer wg.Done()
+			defer func() { <-sem }()
+			rows[i] = runCase(i, *seed, k, "slow-writer")
+		}(i, k)
 	}
 	wg.Wait()
 	for i := range rows {
